@@ -7,18 +7,21 @@ META = {
                  "(straight-line machines driven by arbitrary broker/mechanism answer scripts, both handshake versions, raw and framed tokens); "
                  "trace acceptance: a fake broker over net.Pipe journals every connection of the real Dialer / Transport, a wrapper records the real "
                  "sasl.Mechanism's outputs, the compiled Lean oracle replays the script and evaluates the RFC 4616 / ordering monitors; "
-                 "SCRAM run against xdg-go/scram's server side and an independent stdlib RFC 5802 server",
+                 "SCRAM run against xdg-go/scram's server side, an independent stdlib RFC 5802 server and an impostor broker that forges the server signature; "
+                 "regenerated go/ast ties: the PLAIN format string, the SCRAM adaptor's shape facts, call orders, and decision tables obtained by symbolic execution of both "
+                 "authenticateSASL functions, Dialer.connect, connGroup.connect, the handshake/authenticate wrappers, Conn.saslAuthenticate and protocol.Conn.RoundTrip, each recomputed "
+                 "from Model/Auth.lean by `decide`",
     "level_claimed": {
         "category": "proof",
         "text": "Kernel-checked for every answer script, both paths and handshake versions: only ApiVersions/SaslHandshake/SaslAuthenticate/raw tokens are "
                 "written before the client has seen a positive answer that completed the mechanism; with a mechanism that completes only on the broker's final "
                 "answer the broker-side ordering monitor holds; any error code / EOF / I/O failure / mechanism failure ends in an error with the connection closed and "
-                "nothing written afterwards; PLAIN builds the RFC 4616 message. Partial: SCRAM's cryptography and SASLprep are not modelled (exercised against two "
+                "nothing written afterwards; set-up ends with every request answered and never pipelines; PLAIN builds the RFC 4616 message; the SCRAM adaptor reports completed only "
+                "if the conversation verified that very challenge (reduced to the dependency's contract ConvSound). Partial: SCRAM's cryptography and SASLprep are not modelled (exercised against two "
                 "reference servers only).",
         "design_ref": "DESIGN.md §7 C18",
     },
-    "level_note": "Trusted: Lean kernel; propext/Classical.choice/Quot.sound; the hand-written model Model/Auth.lean, tied to the code by trace acceptance on sampled scripts "
-                  "(the PLAIN format string is additionally re-extracted from sasl/plain/plain.go on every run); the fake broker (responses encoded with kafka-go's own protocol "
+    "level_note": "Trusted: Lean kernel; propext/Classical.choice/Quot.sound; the hand-written model Model/Auth.lean, tied to the code by regenerated decision tables / shape facts (go/extract/saslplain, muxfacts: trusted to read the syntax tree correctly) and by trace acceptance on sampled scripts; the fake broker (responses encoded with kafka-go's own protocol "
                   "package); Spec/SaslPlain.lean is a transcription of RFC 4616; xdg-go/scram (client inside kafka-go, server in the harness) and the stdlib crypto. "
                   "Timeouts of a silent broker are not part of the property and not exercised.",
 }
@@ -29,7 +32,8 @@ MODULE = "KafkaVerif.Props.C18"
 def run(ctx):
     ctx.level = "proof"   # partial aspects (SCRAM crypto not modelled) are listed in assumptions and META
     ctx.assumptions += [
-        "the sasl.Mechanism reports completed only on the broker's final positive answer (mechSound) — proved for PLAIN's shape, assumed for SCRAM (xdg-go/scram), "
+        "the sasl.Mechanism reports completed only on the broker's final positive answer (mechSound) — proved for PLAIN's shape; for SCRAM reduced to the contract ConvSound of "
+        "xdg-go/scram's conversation (scram_completed_only_if_verified; exercised by the impostor-broker cases), "
         "see unsound_mechanism_counterexample",
         "PLAIN: user name and password contain no NUL (RFC 4616 forbids it; plain.go does not check) — plain_nul_counterexample",
         "SCRAM cryptography / SASLprep not modelled: checked only by running the real exchange against reference servers",
@@ -39,6 +43,9 @@ def run(ctx):
     ok, log = ctx.extract("saslplain", ["lean/KafkaVerif/Gen/SaslPlainFmt.lean"])
     if not ok:
         broken.append({"kind": "obligation", "name": "translator go/extract saslplain", "detail": log[-1500:]})
+    ok2, log2 = ctx.extract("muxfacts", ["lean/KafkaVerif/Gen/MuxFacts.lean"])
+    if not ok2:
+        broken.append({"kind": "obligation", "name": "translator go/extract muxfacts", "detail": log2[-1500:]})
     res = ctx.prove(MODULE)
     if not res["ok"]:
         broken.append({"kind": "obligation", "theorems": res["failed"], "detail": res["reasons"][:10]})
